@@ -190,7 +190,7 @@ def decimalParts (text : Bytes) : Bool × Nat × Int :=
 /-- `strtod` on a validated literal, assumed correctly rounded -/
 def strtodSpec (text : Bytes) : UInt64 :=
   let (neg, m, e) := decimalParts text
-  Spec.withSign neg (Spec.ofDec m e)
+  Spec.withSign neg (Spec.ofDecC m e)
 
 /-- `parse_double_fast`: `none` = fall back to strtod -/
 def parseDoubleFast (mant : Nat) (e : Int) (neg : Bool) : Option UInt64 :=
